@@ -110,7 +110,7 @@ def run(tier, replay=None):
     }, [
         "signature catalogue: file, user file types (also with a dotted name), path directories, explicit output names, arrays (also 11 elements: two-digit names), typed maps, structs with files incl. explicit member names and members declared after string / map members, arrays and maps of structs, empty and null collections, null and missing files, symbolic links and relative link chains, strings holding paths, sub-pipelines, mapped producers",
         "for outputs that are symbolic links the record names the link's destination by design; required is only that the file is available with its content at the derived location under outs/",
-        "mapped top-level calls are not covered; the pipestance directory is handed to the runtime clean, with a trailing slash, with a /./ component or a doubled separator (as --psdir passes an absolute path on verbatim)",
+        "mapped top-level calls (`map call TOP(x = split ...)` as the invocation, over arrays of 1, 3 and 11 elements and over typed maps, also with keys that are no file names) are evaluated by MroSem!RunMapped and placed by PostProc!Materialise below outs/<index or key>; post-processing must create nothing but outs/ in the pipestance directory; the pipestance directory is handed to the runtime clean, with a trailing slash, with a /./ component or a doubled separator (as --psdir passes an absolute path on verbatim)",
         "post-processing is executed by the driver in the order cmd/mrp uses (VDRKill, PostProcess)",
     ], time.time() - t0, violations=nunk)
     return rc
